@@ -82,6 +82,14 @@ pub struct Workload {
     /// 2 "./r/out.hex", 3 "r/../r/out.hex", 4 through a symlink to the directory
     #[serde(default)]
     pub out_form: u8,
+    /// actors are forked child processes (own statics, own pid, real death) instead of
+    /// threads of the worker
+    #[serde(default)]
+    pub procs: bool,
+    /// with `procs`: every process reports the same pid (separate PID namespaces sharing
+    /// the directory)
+    #[serde(default)]
+    pub same_pid: bool,
 }
 
 pub const F_SHORT: u32 = 1;
@@ -287,6 +295,10 @@ pub fn generate(rng: &mut Rng, thorough: bool) -> Workload {
         stall_from: *rng.pick(&[0u16, 0, 3, 6, 10, 14]),
         ro_file: rng.chance(1, 12),
         out_form: if rng.chance(1, 3) { rng.range(1, 4) as u8 } else { 0 },
+        // rare: in this VM every fork costs ~20 ms of time serialised across all workers
+        procs: (rng.chance(1, 160) || std::env::var("DSIM_FORCE_PROCS").is_ok())
+            && std::env::var("DSIM_NO_PROCS").is_err(),
+        same_pid: rng.chance(1, 2),
     }
 }
 
@@ -1193,15 +1205,38 @@ pub fn run_one(wl: &Workload, tape: &mut Tape, entropy_seed: u64) -> Result<RunR
     }
     let fault_free = wl.fault_pm == 0 && wl.crash_pm == 0 && !wl.ro_dir && !wl.ro_file;
     let mut policy = C19Policy::new(wl, initial.clone(), fault_free);
-    let out = sched::run(
-        world.clone(),
-        specs,
-        tape,
-        &mut policy,
-        4000,
-        Duration::from_secs(60),
-    )
+    let out = if wl.procs {
+        let fake: Vec<i32> = if wl.same_pid {
+            vec![4242; n_actors]
+        } else {
+            vec![0; n_actors]
+        };
+        crate::procsim::run_procs(
+            world.clone(),
+            specs,
+            tape,
+            &mut policy,
+            4000,
+            Duration::from_secs(60),
+            &fake,
+        )
+    } else {
+        sched::run(
+            world.clone(),
+            specs,
+            tape,
+            &mut policy,
+            4000,
+            Duration::from_secs(60),
+        )
+    }
     .map_err(|e| format!("{:?}", e))?;
+    if wl.procs {
+        policy.probes.hit("run_with_process_backed_actors");
+        if wl.same_pid {
+            policy.probes.hit("run_with_processes_reporting_equal_pids");
+        }
+    }
     let mut probes = policy.probes.clone();
     let mut violation = out.violation.clone();
     let nontrivial = analyse(wl, &out.events, &initial, &mut probes);
@@ -1238,6 +1273,8 @@ pub fn run_one(wl: &Workload, tape: &mut Tape, entropy_seed: u64) -> Result<RunR
             stall_from: 0,
             ro_file: false,
             out_form: 0,
+            procs: false,
+            same_pid: false,
         };
         let world2 = seam::new_world(1, true, world.now_ns());
         let mut pol2 = LivenessPolicy {};
@@ -1419,6 +1456,16 @@ impl Prop for C19 {
             c.out_form = 0;
             out.push(c);
         }
+        if w.procs {
+            let mut c = w.clone();
+            c.procs = false;
+            out.push(c);
+            if w.same_pid {
+                let mut c = w.clone();
+                c.same_pid = false;
+                out.push(c);
+            }
+        }
         if w.clock_mode != 0 {
             let mut c = w.clone();
             c.clock_mode = 0;
@@ -1488,8 +1535,8 @@ impl Prop for C19 {
     }
     fn assumptions() -> Vec<String> {
         vec![
-            "a simulated process is a thread of the harness; writers share nothing but the directory, so this is faithful for C19 as long as the code under test keeps no per-process state: simulated processes share the pid and all statics, so a change that relies on per-process identity for uniqueness (e.g. temp names built from getpid() and a process-wide counter, which collide only across PID namespaces) is invisible here (seeded/C19-temp-name-from-pid-and-counter)".to_string(),
-            "process death is modelled by ghosting: from the crash instant every file-system call of the dead actor fails without reaching the kernel; power loss (unsynced data vanishing) is not modelled because C19 states process death only".to_string(),
+            "in most runs a simulated process is a thread of the harness (shared pid, shared statics, death modelled by ghosting: from the crash instant every file-system call of the dead actor fails without reaching the kernel). In 1 run of 160 (probe run_with_process_backed_actors) every actor is a forked child process of the worker driven by the same controller through shared memory and futexes: its statics and thread-locals are its own, death is a real _exit with no destructor run, and in half of these runs all processes report the same getpid() (separate PID namespaces sharing the directory), so uniqueness built from pid plus a per-process counter is exercised (seeded/C19-temp-name-from-pid-and-counter). The rate is low because every fork costs about 20 ms serialised across all workers in this VM (software-virtualised page tables)".to_string(),
+            "power loss (unsynced data vanishing) is not modelled because C19 states process death only".to_string(),
             "the disk is the kernel's tmpfs: rename/O_EXCL/unlink semantics are the real ones; interleavings are explored at system-call granularity, each call being atomic as the kernel makes it".to_string(),
             "exploration samples schedules and fault placements; a clean batch is evidence, not proof".to_string(),
         ]
@@ -1497,7 +1544,7 @@ impl Prop for C19 {
     fn real_vs_stub() -> serde_json::Value {
         serde_json::json!({
             "real": ["chialisp::util::atomic_write_file", "chialisp::util::gentle_overwrite", "chialisp::classic::clvm_tools::clvmc::compile_clvm (incl. dep_util::newer, the compiler itself)", "py/api.rs run_clvm_compilation re-enacted call for call (read, compile_clvm_text, node_to_bytes, gentle_overwrite)", "tempfile 3.22 (NamedTempFile, persist) built with rustix_use_libc", "std::fs", "kernel tmpfs"],
-            "simulated": ["scheduler (who performs the next file-system call)", "clock (clock_gettime, file mtimes)", "entropy (getrandom)", "fault decisions per call", "process death"],
+            "simulated": ["scheduler (who performs the next file-system call)", "clock (clock_gettime, file mtimes)", "entropy (getrandom)", "fault decisions per call", "process death (ghosting in thread-backed runs, _exit of the child in process-backed runs)", "getpid() in process-backed runs"],
             "not_run": ["pyo3 and wasm bindings themselves"]
         })
     }
